@@ -155,8 +155,12 @@ def main():
 
     # ------------------------------------------------------------------ E-B
     eb_fail = []
+    demo_lines = []
     for grp in reg.get('eb', []):
+        if grp.get('thorough_only') and a.tier != 'thorough':
+            continue
         r = eb.run(REPO, grp, tier=a.tier, seed=seed)
+        demo_lines += r.get('finding_lines', []) + r.get('info_lines', [])
         cmds.append(r['cmd'])
         if r['status'] == 'tool-error':
             tool_errors.append('E-B %s: %s' % (grp['name'], r['tool_error']))
@@ -296,6 +300,7 @@ def main():
             'distinct_nontrivial': max(2, n_obl + len(bounded)) if (n_obl + len(bounded)) >= 2 else n_obl + len(bounded),
             'rule': 'one evaluation per generated proof obligation (Verus function / Kani harness / bounded contract test); all distinct by name',
             'known_findings_reported': known_lines,
+            'known_finding_demonstrations_on_real_code': demo_lines,
             'tool_errors': tool_errors,
         },
         'assumptions': assumptions,
